@@ -201,6 +201,11 @@ def appendTiming (t o : WTiming) : Except PyErr (WTiming × List Warning) :=
     if o.mode = .irregular then .error .SampleIntervalModeMismatchError
     else .ok (t, if t.interval ≠ o.interval then [.timingMismatch] else [])
 
+/-- `Timing.create_with_irregular_interval(stamps)` as the waveform model sees it (used by the generated `append_timing` /
+    `append_timestamps`, translator tier T18): monotonic timestamps or ValueError; no interval -/
+def createIrregular (stamps : List Int) : Except PyErr WTiming :=
+  if Model.Timing.areMonotonic stamps then .ok ⟨.irregular, none, stamps, 0⟩ else .error .ValueError
+
 /-- write `rows` into the buffer at `off` (equal shapes; the caller guarantees room) -/
 def writeAt (buf : List Row) (off : Nat) (rows : List Row) : List Row :=
   buf.take off ++ rows ++ buf.drop (off + rows.length)
